@@ -72,7 +72,7 @@ REGISTRY = {
     'C20': dict(module='contracts.C20', level='proof',
                 native=native_sweep('c20_failsafe.py', 'about 400 argument lists: every option with every field zero / negative / huge / tiny / nan / inf / text / empty, wrong arity, unknown tags, contradictory options, degenerate and duplicate geometry; outcome classified as report / one-line diagnostic / usage error', 100000, 100000),
                 undecided=['finiteness of the numbers produced by the numeric stage (singular or ill-conditioned systems, non-finite inputs): recorded findings C20-nonfinite, C20-singular',
-                           'readers not yet under contract: --geo-rotate/translate/scale, --laplace-load-a/-b pairing, --skin-effect-*, --insulation-load, --theta/--phi/--near-field (native fuzz only)'],
+                           'not under contract: the argparse declarations themselves (types, defaults), --frequency/--frequency-steps/--frequency-increment validation beyond the range test, --option values, the sweep loop at the end of main (native fuzz only)'],
                 trusted=['argparse: action=append collects values in command-line order; type= applies the constructor and turns ValueError into the usage error',
                          'constructor raises clauses as summarised (ValueError; Medium also TypeError)']),
     'C18': dict(module='contracts.C18', level='proof',
